@@ -4,7 +4,7 @@
 -/
 import MdIt.Lemmas.C10DocCore
 
-namespace MdIt.Block
+namespace MdIt.Block.LE
 open MdIt.Lines (LineOffset)
 variable {ρ : Nat → Nat → Prop} {G : Geo} {s₁ s₂ : BState}
 
@@ -321,4 +321,4 @@ theorem fence_sim (C : Ctx ρ G) (S : SRel ρ G s₁ s₂) (silent : Bool) :
   srel_fields S
   exact S.children.push (NRel.mk (KRel.refl _) hr NRelL.nil)
 
-end MdIt.Block
+end MdIt.Block.LE
